@@ -1289,7 +1289,7 @@ def r5_10(ctx):
             guarded = bool({(f"{pn} is self", False), (f"{pn} is not self", True), (f"self is {pn}", False), (f"self is not {pn}", True)} & facts)
             ctx.check(guarded, f.fq, short(x), where, f"`{pn}` is known not to be self",
                       f"`{short(x)}` extends self.{attr} from a generator over `{pn}.{attr}`: when `{pn}` is the text itself the list grows while it is being iterated and the call never returns (t.append(t))")
-    ctx.floor(n, 2, "self-extensions from a parameter's list in Text")
+    ctx.floor(n, 1, "self-extensions from a parameter's list in Text")
 
 
 def r5_11(ctx):
@@ -1336,8 +1336,10 @@ def r5_11(ctx):
                             return "ok"  # old + suffix
                         # prefix + old[len(prefix):]
                         r = e.right
-                        if isinstance(r, ast.Subscript) and norm(r.value) == old and isinstance(r.slice, ast.Slice) and r.slice.upper is None and r.slice.lower is not None and norm(r.slice.lower) == f"len({norm(e.left)})":
-                            return "ok"
+                        if isinstance(r, ast.Subscript) and norm(r.value) == old and isinstance(r.slice, ast.Slice) and r.slice.upper is None and r.slice.lower is not None:
+                            from ..astutil import inline as _inl511, single_defs as _sdf511
+                            if norm(r.slice.lower) == f"len({norm(e.left)})" or norm(_inl511(r.slice.lower, {k_: v_ for k_, v_ in _sdf511(f.node).items() if k_ != norm(e.left)})) == f"len({norm(e.left)})":
+                                return "ok"
                         if norm(e.right) == old or same_pos(e.right) == "ok":
                             return "bad:characters are inserted before the old text"
                     if isinstance(e, ast.JoinedStr):
